@@ -435,8 +435,15 @@ Definition judge_narrow (case obs : sx) : sx :=
   | _, _, _, _, _, _, _ =>
       match fld "error" obs with Some e => LL [SS "bad"; SS "narrow"; e] | None => LL [SS "bad"; SS "narrow"; SS "missing-observation"] end
   end.
+(** a histogram (or binning) class defined after the reader has been used is found like any other subclass: same class, == *)
+Definition judge_late (obs : sx) : sx :=
+  match fld "same_class" obs, fld "eq" obs, fld "binning_class" obs with
+  | Some (SS "T"), Some (SS "T"), Some (SS "T") => LL [SS "ok"; SS "late_class"; SS ""]
+  | _, _, _ => LL [SS "bad"; SS "late_class"; SS "class-defined-after-the-first-read"]
+  end.
 Definition judge_C08 (case obs : sx) : sx :=
   match fld "kind" case with
+  | Some (SS "late_class") => judge_late obs
   | Some (SS "narrow") => judge_narrow case obs
   | Some (SS "hist") => judge_hist obs
   | Some (SS "doc") => judge_doc case obs
